@@ -242,6 +242,23 @@ fn suite_c02(g: &Gram, out: &mut Out, rng: &mut Rng, thorough: bool) {
             }
         }
     }
+    // enumerants with a parameter that may occur any number of times (Decoration BankBitsINTEL): 0..3 occurrences, in
+    // every opcode that takes the kind
+    for (k, v) in variadic_param_sites(g) {
+        for (&op, ig) in &g.insts {
+            let Some(idx) = ig.ops.iter().position(|o| o.k == k) else { continue };
+            if g.has_context_kind(op) { continue; }
+            for reps in 0..4usize {
+                let mut ctx = Ctx::new();
+                let mut forced = std::collections::HashMap::new();
+                forced.insert(idx, v);
+                FORCE_REPS.with(|f| f.set(Some(reps)));
+                let i = gen.inst(op, rng, &mut ctx, &Plan { optionals: Some(ig.ops.iter().filter(|o| o.q == "ZeroOrOne").count()), variadic: Some(1), forced });
+                FORCE_REPS.with(|f| f.set(None));
+                out.ev(asm_event(&i, &ctx.decls, "c02-param-variadic"));
+            }
+        }
+    }
     // context-dependent literals: OpConstant / OpSpecConstant / OpSwitch under every supported width
     for &(is_int, width) in &[(true, 8u32), (true, 16), (true, 32), (true, 64), (false, 16), (false, 32), (false, 64)] {
         for _ in 0..(if thorough { 12 } else { 3 }) {
